@@ -6,6 +6,18 @@
 //!          rtt   round-trip time of the path's statistics in ns, or `x` = statistics unreadable
 //! output : `none` (empty selection: the current path is kept) | `sel=<addr>`
 //!
+//! composed with pruning (C24 ∘ C23):
+//! payload: `world cur=<addr|-> | <addr>:<status> … | <addr>:<rtt> …`  (sections may be `-`)
+//!          second section: the remote's path set, status `o` open | `k` unknown | `u` unusable |
+//!          `i<t>` inactive closed at t µs (addresses with id < 1000; an id ≥ 1000 in the third
+//!          section is the same remote address seen from another local address)
+//!          third section: the selector's candidates (paths of live connections)
+//! model input: the same with the path set in the real map's iteration order
+//! output : `selA=<addr|none> selB=<addr|none> kept=<key>,<key>,…|-`
+//!          selA: selection on the candidates whose remote is in the path set, before pruning;
+//!          selB: the same after the real `prune_paths`; kept: surviving path-set keys
+//!          (kind index · 1000 + id), ascending
+//!
 //! Runs the real `BiasedRttPathSelector::default().select(..)` on a synthetic
 //! `PathSelectionContext` through `iroh::verif_hooks::path_selector::select_default`.
 use std::{
@@ -15,7 +27,10 @@ use std::{
 
 use iroh::{
     endpoint::transports::{Addr, FourTuple},
-    verif_hooks::path_selector::select_default,
+    verif_hooks::{
+        path_selector::select_default,
+        path_state::{PathSet, Status},
+    },
 };
 use iroh_base::{CustomAddr, EndpointId, RelayUrl, SecretKey};
 use vcommon::*;
@@ -143,6 +158,288 @@ fn pick_kind(rng: &mut Rng) -> Kind {
     }
 }
 
+
+#[derive(Clone, Copy, Debug, PartialEq, Eq)]
+enum St {
+    Open,
+    Unknown,
+    Unusable,
+    Inactive(u64),
+}
+
+fn show_st(st: &St) -> String {
+    match st {
+        St::Open => "o".into(),
+        St::Unknown => "k".into(),
+        St::Unusable => "u".into(),
+        St::Inactive(t) => format!("i{t}"),
+    }
+}
+
+fn parse_st(s: &str) -> St {
+    match s {
+        "o" => St::Open,
+        "k" => St::Unknown,
+        "u" => St::Unusable,
+        s if s.starts_with('i') => St::Inactive(s[1..].parse().expect("time")),
+        _ => panic!("bad status {s}"),
+    }
+}
+
+/// Key of a network path's remote address in the path set.
+fn remote_key(a: &A) -> u32 {
+    (match a.kind {
+        Kind::V4 => 0,
+        Kind::V6 => 1,
+        Kind::Relay => 2,
+        Kind::Custom => 3,
+    }) * 1000
+        + a.id % 1000
+}
+
+struct World {
+    cur: Option<A>,
+    paths: Vec<(A, St)>,
+    cands: Vec<(A, Option<u64>)>,
+}
+
+fn parse_world(payload: &str) -> World {
+    let secs: Vec<&str> = payload.split(" | ").collect();
+    assert_eq!(secs.len(), 3, "world needs three sections");
+    let cur = secs[0].strip_prefix("world cur=").expect("world cur=");
+    let cur = if cur == "-" { None } else { Some(parse_addr(cur)) };
+    let paths = if secs[1] == "-" {
+        Vec::new()
+    } else {
+        secs[1]
+            .split(' ')
+            .map(|t| {
+                let (a, st) = t.split_once(':').expect("addr:status");
+                (parse_addr(a), parse_st(st))
+            })
+            .collect()
+    };
+    let cands = if secs[2] == "-" {
+        Vec::new()
+    } else {
+        secs[2]
+            .split(' ')
+            .map(|t| {
+                let (a, r) = t.split_once(':').expect("addr:rtt");
+                (parse_addr(a), if r == "x" { None } else { Some(r.parse().expect("rtt")) })
+            })
+            .collect()
+    };
+    World { cur, paths, cands }
+}
+
+fn show_world(w: &World) -> String {
+    let ps = if w.paths.is_empty() {
+        "-".to_string()
+    } else {
+        w.paths.iter().map(|(a, st)| format!("{}:{}", show_addr(a), show_st(st))).collect::<Vec<_>>().join(" ")
+    };
+    let cs = show(None, &w.cands);
+    let cs = cs.strip_prefix("cur=-").unwrap().trim_start();
+    format!(
+        "world cur={} | {} | {}",
+        w.cur.map(|a| show_addr(&a)).unwrap_or("-".into()),
+        ps,
+        if cs.is_empty() { "-" } else { cs }
+    )
+}
+
+/// A world around the pruning threshold: `failed`/`inactive`/`unknown` non-relay entries plus
+/// the candidates' own entries (open when `linked`).
+fn gen_world(rng: &mut Rng, failed: usize, inactive: usize, unknown: usize, n_cands: usize, linked: bool) -> String {
+    let ms = 1_000_000u64;
+    let mut paths: Vec<(A, St)> = Vec::new();
+    let mut id = 10u32;
+    let mut fresh = |rng: &mut Rng| {
+        id += 1;
+        let kind = match rng.below(6) {
+            0 => Kind::V6,
+            1 => Kind::Custom,
+            _ => Kind::V4,
+        };
+        A { kind, id }
+    };
+    for _ in 0..failed {
+        let a = fresh(rng);
+        paths.push((a, St::Unusable));
+    }
+    let tie = rng.chance(1, 3);
+    for _ in 0..inactive {
+        let a = fresh(rng);
+        paths.push((a, St::Inactive(if tie { rng.below(3) } else { rng.below(1_000_000) })));
+    }
+    for _ in 0..unknown {
+        let a = fresh(rng);
+        paths.push((a, St::Unknown));
+    }
+    // candidates: a few addresses (ids 0..3), possibly seen from a second local address, a relay
+    let mut cand_addrs: Vec<A> = Vec::new();
+    for i in 0..n_cands {
+        let kind = if i == 0 && rng.chance(1, 3) { Kind::Relay } else { pick_kind(rng) };
+        let a = A { kind, id: i as u32 % 4 };
+        if !cand_addrs.iter().any(|b| remote_key(b) == remote_key(&a)) {
+            cand_addrs.push(a);
+        }
+    }
+    for a in &cand_addrs {
+        let st = if linked {
+            St::Open
+        } else {
+            match rng.below(4) {
+                0 => St::Inactive(rng.below(1_000_000)),
+                1 => St::Unusable,
+                2 => St::Unknown,
+                _ => St::Open,
+            }
+        };
+        // an unlinked candidate may also be missing from the path set altogether
+        if linked || !rng.chance(1, 5) {
+            paths.push((*a, st));
+        }
+    }
+    rng.shuffle(&mut paths);
+    let base = rng.range(ms, 100 * ms);
+    let mut cands: Vec<(A, Option<u64>)> = Vec::new();
+    for a in &cand_addrs {
+        let copies = 1 + rng.below(2);
+        for c in 0..copies {
+            let mut b = *a;
+            if c == 1 && matches!(b.kind, Kind::V4 | Kind::V6) {
+                b.id += 1000; // same remote, other local address
+            }
+            let rtt = if rng.chance(1, 8) {
+                None
+            } else {
+                Some((base as i64 + *rng.pick(&[0i64, 1, -1, 3, -3, 5, -5, 8, -8]) * ms as i64 + *rng.pick(&[0i64, 1, -1])).max(0) as u64)
+            };
+            cands.push((b, rtt));
+        }
+    }
+    rng.shuffle(&mut cands);
+    let cur = match rng.below(4) {
+        0 => None,
+        1 => Some(A { kind: Kind::V4, id: 77 }),
+        _ if !cands.is_empty() => Some(rng.pick(&cands).0),
+        _ => None,
+    };
+    show_world(&World { cur, paths, cands })
+}
+
+impl C24 {
+    fn select_tokens(&self, cur: Option<A>, cands: &[(A, Option<u64>)]) -> Option<A> {
+        let cur_t = cur.map(|a| self.tuple(a));
+        let data: Vec<(FourTuple, Option<Duration>)> =
+            cands.iter().map(|(a, r)| (self.tuple(*a), r.map(Duration::from_nanos))).collect();
+        let sel_t = select_default(cur_t.as_ref(), &data);
+        sel_t.as_ref().map(|t| *cands.iter().map(|c| &c.0).find(|a| self.tuple(**a) == *t).expect("selected token"))
+    }
+
+    fn build_set(&self, paths: &[(A, St)]) -> PathSet {
+        let mut set = PathSet::new();
+        for (a, st) in paths {
+            let status = match st {
+                St::Open => Status::Open,
+                St::Unknown => Status::Unknown,
+                St::Unusable => Status::Unusable,
+                St::Inactive(t) => Status::Inactive(Duration::from_micros(*t)),
+            };
+            set.set_path(self.tuple(*a).remote(), status);
+        }
+        set
+    }
+
+    fn execute_world(&mut self, payload: &str) -> Exec {
+        let w = parse_world(payload);
+        // path-set addresses must be plain remotes with pairwise distinct keys
+        let mut keys: Vec<u32> = w.paths.iter().map(|(a, _)| remote_key(a)).collect();
+        keys.sort();
+        keys.dedup();
+        if keys.len() != w.paths.len() || w.paths.iter().any(|(a, _)| a.id >= 1000) {
+            return Exec::new("bad-input").tag("bad-input");
+        }
+        let token_of = |addr: &Addr| -> A {
+            w.paths.iter().map(|p| p.0).find(|a| self.tuple(*a).remote() == *addr).expect("path-set entry without token")
+        };
+        let st_of = |s: Status| match s {
+            Status::Open => St::Open,
+            Status::Unknown => St::Unknown,
+            Status::Unusable => St::Unusable,
+            Status::Inactive(d) => St::Inactive(d.as_micros() as u64),
+        };
+        let visible = |set: &PathSet| -> Vec<(A, Option<u64>)> {
+            let known: Vec<Addr> = set.paths().into_iter().map(|p| p.0).collect();
+            w.cands.iter().filter(|(a, _)| known.contains(&self.tuple(*a).remote())).cloned().collect()
+        };
+        // order A: select, then prune
+        let mut set_a = self.build_set(&w.paths);
+        let before: Vec<(A, St)> = set_a.paths().into_iter().map(|(addr, s)| (token_of(&addr), st_of(s))).collect();
+        let sel_a = self.select_tokens(w.cur, &visible(&set_a));
+        set_a.prune();
+        let mut kept_a: Vec<u32> = set_a.paths().iter().map(|(addr, _)| remote_key(&token_of(addr))).collect();
+        kept_a.sort();
+        // order B: prune, then select
+        let mut set_b = self.build_set(&w.paths);
+        set_b.prune();
+        let sel_b = self.select_tokens(w.cur, &visible(&set_b));
+        let mut kept_b: Vec<u32> = set_b.paths().iter().map(|(addr, _)| remote_key(&token_of(addr))).collect();
+        kept_b.sort();
+
+        let show_sel = |s: &Option<A>| s.map(|a| show_addr(&a)).unwrap_or("none".into());
+        let kept_s = if kept_a.is_empty() { "-".to_string() } else { kept_a.iter().map(|k| k.to_string()).collect::<Vec<_>>().join(",") };
+        let mut ex = Exec::new(format!("selA={} selB={} kept={}", show_sel(&sel_a), show_sel(&sel_b), kept_s));
+        ex.model_input = Some(show_world(&World { cur: w.cur, paths: before.clone(), cands: w.cands.clone() }));
+
+        // ---------------- oracle ----------------
+        if kept_a != kept_b {
+            ex.violation("prune-not-deterministic", "two identical path sets pruned differently");
+        }
+        let open_keys: Vec<u32> = w.paths.iter().filter(|(_, st)| *st == St::Open).map(|(a, _)| remote_key(a)).collect();
+        let linked = w.cands.iter().all(|(a, _)| open_keys.contains(&remote_key(a)));
+        for k in &open_keys {
+            if !kept_a.contains(k) {
+                ex.violation("open-path-pruned", format!("open entry {k} removed"));
+                break;
+            }
+        }
+        if linked {
+            if sel_a != sel_b {
+                ex.violation("prune-changed-selection", format!("before {} after {}", show_sel(&sel_a), show_sel(&sel_b)));
+            }
+            if sel_a != self.select_tokens(w.cur, &w.cands) {
+                ex.violation("visible-differs-from-candidates", "a linked candidate is not visible");
+            }
+            if let Some(a) = &sel_a {
+                if !kept_a.contains(&remote_key(a)) {
+                    ex.violation("selected-pruned", format!("{} selected but its entry was pruned", show_addr(a)));
+                }
+            }
+            if !w.cands.is_empty() && kept_a.is_empty() {
+                ex.violation("emptied-with-candidates", "path set emptied although connections have open paths");
+            }
+        }
+        let non_relay = w.paths.iter().filter(|(a, _)| a.kind != Kind::Relay).count();
+        let n_inactive = w.paths.iter().filter(|(a, st)| a.kind != Kind::Relay && matches!(st, St::Inactive(_))).count();
+        ex.nontrivial = non_relay >= 30 && !w.cands.is_empty();
+        ex.tags.push("world".into());
+        ex.tags.push(if linked { "world-linked".into() } else { "world-unlinked".into() });
+        if non_relay >= 30 {
+            ex.tags.push("world-pruning".into());
+            if (1..=10).contains(&n_inactive) && w.paths.iter().all(|(a, st)| *st == St::Open || (a.kind != Kind::Relay && matches!(st, St::Unusable | St::Inactive(_)))) {
+                ex.tags.push("world-everything-else-pruned".into());
+            }
+        }
+        if sel_a != sel_b {
+            ex.tags.push("world-selection-changed".into());
+        }
+        ex
+    }
+}
+
 impl Prop for C24 {
     fn id(&self) -> &'static str {
         "C24"
@@ -195,6 +492,32 @@ impl Prop for C24 {
         // extremes of the RTT range
         out.push(show(Some(f1), &[(f1, Some(u64::MAX)), (f2, Some(0)), (s1, Some(0))]));
         out.push(show(Some(s1), &[(s1, Some(0)), (f2, Some(0)), (r1, Some(u64::MAX))]));
+        // composed with pruning: the C23 finding class (everything but the open paths is pruned),
+        // the thresholds, and unlinked candidates
+        for inactive in [0usize, 1, 5, 10, 11, 15, 20, 25] {
+            for failed in [0usize, 19, 29, 30] {
+                for n_cands in [1usize, 2, 4] {
+                    out.push(gen_world(rng, failed, inactive, 0, n_cands, true));
+                }
+                out.push(gen_world(rng, failed, inactive, 3, 2, true));
+                out.push(gen_world(rng, failed, inactive, 0, 3, false));
+            }
+        }
+        out.push("world cur=- | - | -".into());
+        out.push("world cur=f1 | - | f1:1000000".into());
+        let n_worlds = n / 3;
+        let target = out.len() + n_worlds;
+        while out.len() < target.min(n) {
+            let failed = rng.range(0, 35) as usize;
+            let inactive = match rng.below(3) {
+                0 => rng.range(0, 10) as usize,
+                _ => rng.range(0, 30) as usize,
+            };
+            let unknown = if rng.chance(1, 3) { rng.range(0, 6) as usize } else { 0 };
+            let n_cands = rng.range(0, 4) as usize;
+            let linked = !rng.chance(1, 5);
+            out.push(gen_world(rng, failed, inactive, unknown, n_cands, linked));
+        }
         // random lists ≤ 8 with duplicates across connections, missing stats, clustered RTTs
         while out.len() < n {
             let len = rng.range(0, 8) as usize;
@@ -242,6 +565,9 @@ impl Prop for C24 {
     }
 
     fn execute(&mut self, payload: &str) -> Exec {
+        if payload.starts_with("world ") {
+            return self.execute_world(payload);
+        }
         let (cur, paths) = parse(payload);
         let cur_t = cur.map(|a| self.tuple(a));
         let data: Vec<(FourTuple, Option<Duration>)> =
